@@ -89,6 +89,12 @@ CLAIMED = {
             'every path that activates an atom of a smart type or a goal applies the rule exactly once under the atom\'s sigma, inherited rules first; the synthetic predicates are Intervals. '
             'One known finding: facts on plain predicates (design decision of oRatio). Numeric satisfaction is C01/C09.',
             'The required atoms are written in orv/rules/C06.py; the DL form is read from a configure-only run because that configuration does not compile at the pinned commit.', 'DESIGN.md 4 C06'),
+    'C16': ('character-path (trie) extraction of lexer::next against a keyword/punctuation oracle; symbol production/consumption cross-check; FIRST sets by abstract interpretation of the parser over the 48 token kinds; CFG typestate of the current token; '
+            'precedence-table extraction; routing-chain check lexeme -> symbol -> factory -> node -> core operation',
+            'Static: every keyword / operator lexeme produces the symbol the language assigns to it and nothing else does; every symbol the parser consumes is produced; no dispatch point rejects a token kind that the non-terminal it serves accepts '
+            '(one-token look-ahead), no non-terminal is called on a token it rejects, no token is consumed or down-cast unexamined; the precedence levels and node kinds of all 17 operators; all 41 node factories are overridden by the '
+            'evaluable node of the same name; every node evaluates all operands in order with the core operation of its name. Two-token look-ahead (method declarations with primitive return type, call statements) and exactness of evaluated values beyond C15 are not decided.',
+            'The punctuation table is frozen from the RIDDLE grammar in orv/rules/C16.py; keyword lexemes are derived from the enumerator names.', 'DESIGN.md 4 C16'),
 }
 
 NOT_YET = {}
